@@ -119,6 +119,20 @@ NEEDS = {
              "recluster_inplace(shuffle=True) with a cluster of >= 256 members among smaller ones (clusters are dropped)",
     "C10-c": "tolerance-diameter rejects when the merged statistic EQUALS the threshold: needs an exact tie (duplicates at "
              "threshold 1.0, Tanimoto exactly 1/2 at threshold 0.5)",
+    "C11-c": "complementary similarity vectorised with one global all-zero guard (as C12-b, found independently for "
+             "C11): needs >= 3 rows of which exactly one is non-empty",
+    "C12-c": "_popcount accumulates in the smallest uint holding 2 x (bytes per row): needs packed widths of 32..127 "
+             "bytes and a popcount / intersection / union of >= 256 bits",
+    "C14-d": "round files are written as *.tmp and published by a glob-and-rename after each round; the purge does not "
+             "know *.npy.tmp: needs a crash after a buffers file was written and a re-run whose (label, dtype) set "
+             "differs (fewer files -> other label width)",
+    "C15-c": "`if not refine_rounds` treats an explicit --refine-rounds 0 as 'not given': needs --refine-rounds 0 with "
+             "--refine-num > 0",
+    "C17-c": "the merge_criterion setter returns early when the name is unchanged: needs a merge-function OBJECT that "
+             "carries a builtin name with non-builtin hyper-parameters (adaptive=False), then the same name assigned "
+             "through the property setter",
+    "C20-c": "the launcher publishes a first sample itself while the daemon starts from max = 0: needs the daemon's "
+             "first sample to be lower than the launch-time sample (the recorded peak decreases)",
     "C20-a": "the monitor overwrites max-rss.txt in place and truncates afterwards: needs the reader to run between "
              "the write of a shorter value and the truncate (or before the first write)",
 }
